@@ -9,6 +9,7 @@ import json
 import os
 import re
 
+import c19life
 import common
 from common import REPO, cxx_build, drv, gen_write, log, sh
 
@@ -27,7 +28,9 @@ def gen(ck):
         raise common.BuildError("consts dumper failed rc=%d %s" % (rc, err[-300:]))
     c = json.loads(out)
     ck.extra["generated_constants"] = c
-    gen_write("C19", "".join("def %s : Nat := %d\n" % (k, v) for k, v in sorted(c.items())))
+    life_defs, life = c19life.gen(ck)
+    gen_write("C19", "".join("def %s : Nat := %d\n" % (k, v) for k, v in sorted(c.items())) + life_defs)
+    c["life"] = life
     return c
 
 
@@ -456,7 +459,10 @@ def run(ck):
                "invocation numbers; ETS/combinable: 1-9 threads x 0-3 lookups with chosen colliding / wrapping / random keys or real thread ids, so that the "
                "table doubles 0-3 times), each under seeded random schedules with access-by-access replay on the Lean model, plus bounded-preemption DFS "
                "of the small scenarios and one directed 130-caller saturation schedule, all with implementation-side monitors; E-REAL: seeded scenarios "
-               "on the real runtime (std::threads / parallel_for bodies / nested parallelism inside the function); distinct = distinct (family, #threads, "
+               "on the real runtime (std::threads / parallel_for bodies / nested parallelism inside the function); container lifecycle: 16 hand-written + 40 (thorough 400) "
+               "seeded scenarios over ets_no_key / ets_key_per_instance / combinable with 2-9 threads and 4-12 phases (concurrent local() phases, clear by a user or "
+               "a non-user thread, repeated clear, 1100 generations, destroy + re-create at the same address, move round trip, copy), 5 (25) schedules each + 3 OS-scheduled "
+               "runs on the real library; distinct = distinct (family, #threads, "
                "#throws or #arrays, access kinds seen, outcomes) classes")
     ck.assumptions += [
         "proved on the model (N threads <= collaborative_once_max_references, all schedules, all throw oracles; sequentially consistent interleavings)",
@@ -467,11 +473,17 @@ def run(ck):
         "weak CAS never fails spuriously under the shim"]
     ck.assumptions += [
         "EtsTable model: create_local() (my_locals.grow_by + construction) is merged with the following ++my_count; (i+1)&mask is modelled as (i+1) % 2^lg; "
-        "std::hash of the key is a parameter (every assignment of 64-bit hashes is covered by the theorems); deletion/clear() and copy/move of containers "
-        "are not modelled (not concurrent operations)",
+        "std::hash of the key is a parameter (every assignment of 64-bit hashes is covered by the theorems)",
+        "lifecycle (Model/C19Life.lean): operation-level model — one step per local() / clear() / destroy+re-create; a table_lookup inside one generation is "
+        "abstracted to its proven specification (ets_one_element_per_thread: found iff the thread has an element, else exactly one create_local) and needs the "
+        "table to be back in its initial state after clear() (generated: the base table_clear frees every array and resets my_count); native TLS keys are "
+        "modelled as fresh ids for which every thread reads null (glibc re-uses key numbers with a new sequence number; on a libc that re-used a key WITHOUT "
+        "resetting other threads' values the theorem's createKey step would not hold); clear()/construction/destruction are not concurrency-safe operations and "
+        "are not interleaved with local(); move and copy of containers are covered by E-SHIM/E-REAL monitors only (move round trip keeps every element, a copy "
+        "has one element per thread), not by the model",
         "OnceFlag theorems need #callers <= collaborative_once_max_references (=128): beyond that the helper count CAN overflow into the runner pointer "
         "(stale `expected`; shown on the model by once_refcount_overflow_beyond_bound and on the real header with 130 callers, see beyond_bound_observation)"]
-    ck.trusted += ["harness/shim (atomic shim + baton scheduler)", "harness/c19/*.cpp monitors and r1 stubs", "trace replay in checks/c19.py (sampled correspondence)"]
+    ck.trusted += ["harness/shim (atomic shim + baton scheduler)", "harness/c19/*.cpp monitors and r1 stubs", "checks/c19life.py (statement -> primitive-action reader of the lifecycle functions; scenario generator; op replay)", "trace replay in checks/c19.py (sampled correspondence)"]
     c = gen(ck)
     ck.lean_stage()
     bc, bm = run_once_family(ck, c["maxRefs"])
@@ -484,6 +496,8 @@ def run(ck):
                   bc, bm, lambda sc, r: {"engine": "E-SHIM", "family": "ets", "scenario": sc, "schedule": r["sched"], "monitor": r["mon"],
                                          "hashes": r.get("info", {}).get("hashes"), "rand_args": r.get("rand_args"), "trace": r.get("ev", [])[:300]})
     run_real(ck)
+    life_exe, lbc, lbm, lrb = c19life.run_family(ck, c["life"])
+    c19life.report(ck, life_exe, c["life"], lbc, lbm, lrb)
 
 
 
@@ -500,6 +514,8 @@ def print_digest(out):
 
 def replay(ck, obj):
     r = obj["replay"]
+    if r["family"] in ("life", "life-real"):
+        return c19life.replay(r)
     if r["family"] == "once":
         exe = build_once()
         rc, out, err = sh([exe, "replay", ",".join(r["schedule"])], input=once_text(r["scenario"]), timeout=300)
